@@ -266,6 +266,17 @@ class StmtMixin:
         outs = []
         for s, c in self.ev(n.test, st):
             t, f = self.branch(s, self.truth(c), f"if@{n.lineno}")
+            # `if x:` / `if not x:` on an Optional local: x is not None where it is truthy (its payload is used from there)
+            name, positive = None, True
+            if isinstance(n.test, ast.Name):
+                name = n.test.id
+            elif isinstance(n.test, ast.UnaryOp) and isinstance(n.test.op, ast.Not) and isinstance(n.test.operand, ast.Name):
+                name, positive = n.test.operand.id, False
+            if name is not None:
+                tgt = t if positive else f
+                v = tgt.env.get(name) if tgt is not None else None
+                if v is not None and not v.is_py and v.ty.kind == "opt":
+                    tgt.env[name] = self.unwrap(v)
             if t is not None:
                 outs += self.exec_block(n.body, t)
             if f is not None:
